@@ -1597,6 +1597,121 @@ def m_vec_append(I, args, callee):
     return UNIT
 
 
+def _ite_int(I, c, a, b):
+    if c.conc():
+        return a if c.v else b
+    return IntV(a.w, z3.If(c.v, a.z(), b.z()), a.s)
+
+
+def m_int_saturating_sub(I, args, callee):
+    a, b = args
+    return _ite_int(I, I.binop('Lt', a, b), IntV(a.w, 0, a.s), I.binop('Sub', a, b)) if not a.s else I.binop('Sub', a, b)
+
+
+def m_int_saturating_add(I, args, callee):
+    a, b = args
+    r = I.binop('AddWithOverflow', a, b)
+    mx = IntV(a.w, (1 << (a.w - 1)) - 1 if a.s else (1 << a.w) - 1, a.s)
+    return _ite_int(I, r.fields[1], mx, r.fields[0])
+
+
+def m_int_min(I, args, callee):
+    a, b = args
+    a = I.deref(a) if isinstance(a, Ref) else a
+    b = I.deref(b) if isinstance(b, Ref) else b
+    return _ite_int(I, I.binop('Le', a, b), a, b)
+
+
+def m_int_max(I, args, callee):
+    a, b = args
+    a = I.deref(a) if isinstance(a, Ref) else a
+    b = I.deref(b) if isinstance(b, Ref) else b
+    return _ite_int(I, I.binop('Ge', a, b), a, b)
+
+
+def m_int_checked(op):
+    def f(I, args, callee):
+        a, b = args
+        r = I.binop(op + 'WithOverflow', a, b)
+        if truthy(I, r.fields[1]):
+            return none()
+        return some(r.fields[0])
+    f.__name__ = 'm_int_checked_' + op
+    return f
+
+
+def m_int_wrapping(op):
+    def f(I, args, callee):
+        return I.binop(op, args[0], args[1])
+    f.__name__ = 'm_int_wrapping_' + op
+    return f
+
+
+def m_int_from(I, args, callee):
+    a = args[0]
+    m = re.match(r'^<(\w+) as From<(\w+)>>::from$', callee)
+    from .values import INT_W
+    if m and m.group(1) in INT_W:
+        w = INT_W[m.group(1)]
+        sg = m.group(1)[0] == 'i'
+        if isinstance(a, BoolV):
+            return IntV(w, int(a.v), sg) if a.conc() else IntV(w, z3.If(a.v, z3.BitVecVal(1, w), z3.BitVecVal(0, w)), sg)
+        if a.conc():
+            return IntV(w, a.sval(), sg)
+        return IntV(w, z3.SignExt(w - a.w, a.v) if a.s else z3.ZeroExt(w - a.w, a.v), sg)
+    raise Unsupported(callee)
+
+
+def m_int_cmp(I, args, callee):
+    a, b = I.deref(args[0]), I.deref(args[1])
+    if isinstance(a, Agg) and len(a.fields) == 1:
+        a, b = a.fields[0], b.fields[0]
+    if truthy(I, I.binop('Lt', a, b)):
+        return Agg('Ordering', [], 'Less')
+    if truthy(I, I.binop('Eq', a, b)):
+        return Agg('Ordering', [], 'Equal')
+    return Agg('Ordering', [], 'Greater')
+
+
+def m_vec_drain(I, args, callee):
+    v = I.deref(args[0])
+    lst = I.container_list(v)
+    rng = args[1]
+    n = len(lst)
+    if rng.kind == 'RangeFull':
+        a, b = 0, n
+    elif rng.kind == 'Range':
+        a, b = I.concretize(rng.fields[0]), I.concretize(rng.fields[1])
+    elif rng.kind == 'RangeTo':
+        a, b = 0, I.concretize(rng.fields[0])
+    elif rng.kind == 'RangeFrom':
+        a, b = I.concretize(rng.fields[0]), n
+    else:
+        raise Unsupported('drain ' + rng.kind)
+    if not (a <= b <= n):
+        I.fail('drain-oob', 'Vec::drain range out of bounds')
+    items = lst[a:b]
+    del lst[a:b]
+    return new_iter(items)
+
+
+def m_deque_front(I, args, callee):
+    d = I.deref(args[0])
+    if not d.fields:
+        return none()
+    return some(Ref(Cell(d), (('f', 0),)))
+
+
+def m_deque_push_front(I, args, callee):
+    I.deref(args[0]).fields.insert(0, args[1])
+    return UNIT
+
+
+def m_deque_pop_back(I, args, callee):
+    d = I.deref(args[0])
+    return some(d.fields.pop()) if d.fields else none()
+
+
 def m_slice_windows(I, args, callee):
     sl = as_slice(I, args[0])
     n = I.concretize(args[1], 'windows size')
@@ -1626,6 +1741,25 @@ def m_path_display(I, args, callee):
 
 
 MODELS = [
+    (r'^Vec::<.*>::drain::', m_vec_drain),
+    (r'^<std::vec::Drain<.*> as Iterator>::next$', m_pyiter_next),
+    (r'^<std::vec::Drain<.*> as IntoIterator>::into_iter$', m_identity),
+    (r'^VecDeque::<.*>::front$', m_deque_front),
+    (r'^VecDeque::<.*>::push_front$', m_deque_push_front),
+    (r'^VecDeque::<.*>::pop_back$', m_deque_pop_back),
+    (r'^VecDeque::<.*>::iter$|^<&VecDeque<.*> as IntoIterator>::into_iter$', m_slice_iter),
+    (r'^<std::collections::vec_deque::Iter<.*> as Iterator>::next$', m_slice_iter_next),
+    (r'^(core::)?num::<impl [ui](8|16|32|64|size)>::saturating_sub$', m_int_saturating_sub),
+    (r'^(core::)?num::<impl [ui](8|16|32|64|size)>::saturating_add$', m_int_saturating_add),
+    (r'^(core::)?num::<impl [ui](8|16|32|64|size)>::checked_sub$', m_int_checked('Sub')),
+    (r'^(core::)?num::<impl [ui](8|16|32|64|size)>::checked_add$', m_int_checked('Add')),
+    (r'^(core::)?num::<impl [ui](8|16|32|64|size)>::checked_mul$', m_int_checked('Mul')),
+    (r'^(core::)?num::<impl [ui](8|16|32|64|size)>::wrapping_sub$', m_int_wrapping('Sub')),
+    (r'^(core::)?num::<impl [ui](8|16|32|64|size)>::wrapping_add$', m_int_wrapping('Add')),
+    (r'^(std::)?cmp::min::<|^<[ui](8|16|32|64|size) as Ord>::min$|^min::<[ui]', m_int_min),
+    (r'^(std::)?cmp::max::<|^<[ui](8|16|32|64|size) as Ord>::max$|^max::<[ui]', m_int_max),
+    (r'^<[ui](8|16|32|64|size) as From<(bool|[ui](8|16|32|64|size))>>::from$', m_int_from),
+    (r'^<[ui](8|16|32|64|size) as (Ord|PartialOrd)>::(cmp|partial_cmp)$', m_int_cmp),
     (r'^<.* as Iterator>::filter_map::', m_iter_filter_map),
     (r'^<.* as Iterator>::filter::', m_iter_filter),
     (r'^<.* as Iterator>::all::', m_iter_all),
